@@ -9,6 +9,7 @@ open ZoektModel ZoektModel.Proto
   `hist <before repos> <ops s1+,u2!,…|->`                → `after=<repos>`             (+ = rename succeeded, ! = failed)
   `search <repos> <docs> <indices of matching docs|->`   → `hits=<doc indices|->`
   `list <repos> <docs> <c0|c1|rp:<repo indices>|dp:<doc indices>>` → `repos=<repo indices|->`
+  `searchlim <repos> <docs> <doc index:match count,…|-> <limit>` → `hits=<doc indices|->`   (ShardRepoMaxMatchCount = limit)
 -/
 
 def parseNats (sep : String) (t : String) : Option (List Nat) :=
@@ -103,6 +104,26 @@ def handle (line : String) : String :=
         | none => badCase "impl search"
       | _ => badCase "impl search fields"
     | _, _, _ => badCase "search fields"
+  | ["searchlim", repos, docs, ws, lim] =>
+    match parseRepos repos, parseDocs docs, parseDocs ws, lim.toNat? with
+    | some repos, some docs, some ws, some lim =>
+      -- `ws` reuses the `a:b` syntax: document index : number of matches
+      let weight := fun (d : Doc) =>
+        (List.range docs.length).findSome? fun i =>
+          if docs[i]? == some d then (ws.find? (fun x => x.repo == i)).map (·.name) else none
+      let matching := pick docs (ws.map (·.repo))
+      let hits := searchLim repos lim weight docs 0 0
+      let model := s!"hits={showNatList (indicesOf docs hits)}"
+      match fields impl with
+      | [h] =>
+        match (kv "hits=" h).bind (parseNats ",") with
+        | some ih =>
+          if checkSearchLim repos matching (pick docs ih) then answer model
+          else if (pick docs ih).any (fun d => hidden repos d) then specFail model "tombstoned-document-in-limited-results"
+          else specFail model "limited-results-wrong"
+        | none => badCase "impl searchlim"
+      | _ => badCase "impl searchlim fields"
+    | _, _, _, _ => badCase "searchlim fields"
   | ["list", repos, docs, q] =>
     match parseRepos repos, parseDocs docs with
     | some repos, some docs =>
